@@ -1307,4 +1307,546 @@ theorem uwtWriteG_fresh_log (isEmpty : FS → PPath → Bool) (v : Bytes → Boo
 
 end writephase
 
+section shapes
+
+theorem sysMkdir_shape {fs : FS} {root : PPath} {cs : List Name} {fs' : FS} {m : Mut}
+    (h : sysMkdir fs root cs = .ok (fs', m)) : ∃ p, fs' = fs.set p (some .dir) ∧ m = .mkdir p := by
+  simp only [sysMkdir] at h
+  split at h
+  · cases h
+  · split at h
+    · cases h
+    · cases h; exact ⟨_, rfl, rfl⟩
+
+theorem sysUnlink_shape {fs : FS} {root : PPath} {cs : List Name} {fs' : FS} {m : Mut}
+    (h : sysUnlink fs root cs = .ok (fs', m)) : ∃ p, fs' = fs.set p none ∧ m = .unlink p := by
+  simp only [sysUnlink] at h
+  split at h
+  · cases h
+  · split at h
+    · cases h
+    · cases h
+    · cases h; exact ⟨_, rfl, rfl⟩
+
+theorem sysRmdir_shape {isEmpty : FS → PPath → Bool} {fs : FS} {root : PPath} {cs : List Name} {fs' : FS} {m : Mut}
+    (h : sysRmdir isEmpty fs root cs = .ok (fs', m)) : ∃ p, fs' = fs.set p none ∧ m = .rmdir p := by
+  simp only [sysRmdir] at h
+  split at h
+  · cases h
+  · split at h
+    · cases h
+    · split at h
+      · cases h; exact ⟨_, rfl, rfl⟩
+      · cases h
+    · cases h
+
+theorem sysSymlink_shape {fs : FS} {root : PPath} {cs : List Name} {t : Bytes} {fs' : FS} {m : Mut}
+    (h : sysSymlink fs t root cs = .ok (fs', m)) : ∃ p, fs' = fs.set p (some (.link t)) ∧ m = .symlink p t := by
+  simp only [sysSymlink] at h
+  split at h
+  · cases h
+  · split at h
+    · cases h
+    · cases h; exact ⟨_, rfl, rfl⟩
+
+theorem sysOpenWrite_shape {fs : FS} {root : PPath} {cs : List Name} {t : Bytes} {fs' : FS} {m : Mut}
+    (h : sysOpenWrite fs t root cs = .ok (fs', m)) : ∃ p md, fs' = fs.set p (some (.file t md)) ∧ m = .write p := by
+  simp only [sysOpenWrite] at h
+  split at h
+  · cases h
+  · split at h
+    · cases h
+    · cases h
+    · cases h; exact ⟨_, _, rfl, rfl⟩
+    · cases h; exact ⟨_, _, rfl, rfl⟩
+
+theorem sysChmod_shape {fs : FS} {root : PPath} {cs : List Name} {mode : Nat} {fs' : FS} {m : Mut}
+    (h : sysChmod fs mode root cs = .ok (fs', m)) :
+    ∃ p n md, fs' = fs.set p (some n) ∧ m = .chmod p md ∧ (∀ t, n = .link t → fs p = some (.link t)) := by
+  simp only [sysChmod] at h
+  split at h
+  · cases h
+  · split at h
+    · cases h
+    · cases h; exact ⟨_, _, _, rfl, rfl, fun t ht => by cases ht⟩
+    · rename_i hp; cases h; exact ⟨_, _, _, rfl, rfl, fun t ht => by rw [hp, ht]⟩
+
+/-- a predicate on states closed under every mutating call of the model (whatever path it resolved to) -/
+structure OpClosed (P : St → Prop) : Prop where
+  set : ∀ (st : St) (p : PPath) (n : Option Node) (m : Mut),
+    (∀ t, n = some (.link t) → m = .symlink p t ∨ st.fs p = some (.link t)) →
+    P st → P { st with fs := st.fs.set p n, log := st.log ++ [m] }
+  safe : ∀ (st : St) (s : List Name), P st → P { st with safe := s }
+
+variable {P : St → Prop} (hc : OpClosed P)
+include hc
+
+theorem OpClosed.apply_mkdir {st : St} {root : PPath} {cs : List Name} (h : P st) :
+    P (st.apply (sysMkdir st.fs root cs)).1 := by
+  cases hr : sysMkdir st.fs root cs with
+  | error e => exact h
+  | ok v =>
+    obtain ⟨p, h1, h2⟩ := sysMkdir_shape (fs' := v.1) (m := v.2) hr
+    simp only [St.apply]; rw [h1, h2]
+    exact hc.set st p _ _ (fun t ht => by cases ht) h
+
+theorem OpClosed.apply_unlink {st : St} {root : PPath} {cs : List Name} (h : P st) :
+    P (st.apply (sysUnlink st.fs root cs)).1 := by
+  cases hr : sysUnlink st.fs root cs with
+  | error e => exact h
+  | ok v =>
+    obtain ⟨p, h1, h2⟩ := sysUnlink_shape (fs' := v.1) (m := v.2) hr
+    simp only [St.apply]; rw [h1, h2]
+    exact hc.set st p _ _ (fun t ht => by cases ht) h
+
+theorem OpClosed.apply_rmdir {isEmpty : FS → PPath → Bool} {st : St} {root : PPath} {cs : List Name} (h : P st) :
+    P (st.apply (sysRmdir isEmpty st.fs root cs)).1 := by
+  cases hr : sysRmdir isEmpty st.fs root cs with
+  | error e => exact h
+  | ok v =>
+    obtain ⟨p, h1, h2⟩ := sysRmdir_shape (fs' := v.1) (m := v.2) hr
+    simp only [St.apply]; rw [h1, h2]
+    exact hc.set st p _ _ (fun t ht => by cases ht) h
+
+theorem OpClosed.apply_symlink {st : St} {root : PPath} {cs : List Name} {t : Bytes} (h : P st) :
+    P (st.apply (sysSymlink st.fs t root cs)).1 := by
+  cases hr : sysSymlink st.fs t root cs with
+  | error e => exact h
+  | ok v =>
+    obtain ⟨p, h1, h2⟩ := sysSymlink_shape (fs' := v.1) (m := v.2) hr
+    simp only [St.apply]; rw [h1, h2]
+    exact hc.set st p _ _ (fun t' ht => by cases ht; exact Or.inl rfl) h
+
+theorem OpClosed.apply_write {st : St} {root : PPath} {cs : List Name} {t : Bytes} (h : P st) :
+    P (st.apply (sysOpenWrite st.fs t root cs)).1 := by
+  cases hr : sysOpenWrite st.fs t root cs with
+  | error e => exact h
+  | ok v =>
+    obtain ⟨p, md, h1, h2⟩ := sysOpenWrite_shape (fs' := v.1) (m := v.2) hr
+    simp only [St.apply]; rw [h1, h2]
+    exact hc.set st p _ _ (fun t' ht => by cases ht) h
+
+theorem OpClosed.apply_chmod {st : St} {root : PPath} {cs : List Name} {mode : Nat} (h : P st) :
+    P (st.apply (sysChmod st.fs mode root cs)).1 := by
+  cases hr : sysChmod st.fs mode root cs with
+  | error e => exact h
+  | ok v =>
+    obtain ⟨p, n, md, h1, h2, h3⟩ := sysChmod_shape (fs' := v.1) (m := v.2) hr
+    simp only [St.apply]; rw [h1, h2]
+    exact hc.set st p _ _ (fun t' ht => by cases ht; exact Or.inr (h3 t' rfl)) h
+
+omit hc in
+theorem OpClosed.andThen {r : Step} {f : St → Step} (h : P r.1) (hf : ∀ st, P st → P (f st).1) : P (r.andThen f).1 := by
+  obtain ⟨st1, e⟩ := r
+  cases e with
+  | none => exact hf st1 h
+  | some e => exact h
+
+theorem OpClosed.mkdirsUp (root : PPath) (lead : List Name) : ∀ (cnt i : Nat) (st : St), P st →
+    P (mkdirsUp root lead i cnt st).1 := by
+  intro cnt
+  induction cnt with
+  | zero => intro i st h; exact h
+  | succ cnt ih =>
+    intro i st h
+    simp only [Checkout.mkdirsUp]
+    exact OpClosed.andThen (hc.apply_mkdir h) (fun st1 h1 => ih (i + 1) st1 h1)
+
+theorem OpClosed.ensureParent (root : PPath) (lead : List Name) (st : St) (h : P st) :
+    P (ensureParent root lead st).1 := by
+  unfold Checkout.ensureParent
+  split
+  · exact h
+  · exact hc.mkdirsUp _ _ _ _ _ h
+
+theorem OpClosed.writeAndChmod (root : PPath) (comps : List Name) (mode : Nat) (content : Bytes) (st : St) (h : P st) :
+    P (writeAndChmod root comps mode content st).1 :=
+  OpClosed.andThen (hc.apply_write h) (fun _ h1 => hc.apply_chmod h1)
+
+theorem OpClosed.buildFileFromBlob (root : PPath) (comps : List Name) (mode : Nat) (content : Bytes) (st : St) (h : P st) :
+    P (buildFileFromBlob root comps mode content st).1 := by
+  unfold Checkout.buildFileFromBlob
+  split
+  · split
+    · exact hc.apply_symlink h
+    · exact hc.writeAndChmod _ _ _ _ _ h
+  · exact h
+  · split
+    · exact OpClosed.andThen (hc.apply_unlink h) (fun _ h1 => hc.apply_symlink h1)
+    · split
+      · exact OpClosed.andThen (hc.apply_unlink h) (fun _ h1 => hc.writeAndChmod _ _ _ _ _ h1)
+      · exact h
+      · split
+        · exact h
+        · exact hc.writeAndChmod _ _ _ _ _ h
+
+theorem OpClosed.uwtWriteG (fresh : Bool) (isEmpty : FS → PPath → Bool) (v : Bytes → Bool) (root : PPath) (e : Entry)
+    (st : St) (h : P st) : P (uwtWriteG fresh isEmpty v root e st).1 := by
+  unfold Checkout.uwtWriteG
+  split
+  · exact h
+  · simp only
+    split
+    · exact h
+    · have h0 := hc.safe st (if fresh = true then st.safe else ‹List Name›) h
+      have hw : ∀ s, P s → P ((Checkout.ensureParent root (splitOn pathSep e.path).dropLast s).andThen
+          (Checkout.buildFileFromBlob root (splitOn pathSep e.path) e.mode e.content)).1 :=
+        fun s hs => OpClosed.andThen (hc.ensureParent _ _ _ hs) (fun s1 h1 => hc.buildFileFromBlob _ _ _ _ _ h1)
+      split
+      · exact hw _ h0
+      · exact h0
+      · split
+        · exact h0
+        · refine OpClosed.andThen ?_ hw
+          split
+          · exact hc.apply_rmdir h0
+          · exact hc.apply_unlink h0
+
+theorem OpClosed.placeholder (root : PPath) (comps : List Name) (content : Bytes) (st : St) (h : P st) :
+    P (placeholder root comps content st).1 := by
+  unfold Checkout.placeholder
+  refine OpClosed.andThen (hc.ensureParent _ _ _ h) (fun s hs => ?_)
+  split
+  · exact hs
+  · exact hc.apply_write hs
+
+theorem OpClosed.uwtGitlinkG (follows : Bool) (root : PPath) (comps : List Name) (content : Bytes) (st : St) (h : P st) :
+    P (uwtGitlinkG follows root comps content st).1 := by
+  unfold Checkout.uwtGitlinkG
+  split
+  · exact hc.placeholder _ _ _ _ h
+  · exact h
+  · have h2 : P ((st.apply (sysUnlink st.fs root comps)).andThen (Checkout.placeholder root comps content)).1 :=
+      OpClosed.andThen (hc.apply_unlink h) (fun s hs => hc.placeholder _ _ _ _ hs)
+    cases follows
+    · simp only [Bool.false_eq_true, if_false]
+      split
+      · exact hc.placeholder _ _ _ _ h
+      · exact h2
+    · simp only [if_true]
+      split
+      · exact hc.placeholder _ _ _ _ h
+      · exact h2
+
+theorem OpClosed.uwtEntryG (fresh follows : Bool) (isEmpty : FS → PPath → Bool) (v : Bytes → Bool) (root : PPath)
+    (e : Entry) (st : St) (h : P st) : P (uwtEntryG fresh follows isEmpty v root e st).1 := by
+  unfold Checkout.uwtEntryG
+  split
+  · split
+    · exact h
+    · simp only
+      split
+      · exact h
+      · exact hc.uwtGitlinkG _ _ _ _ _ (hc.safe st _ h)
+  · exact hc.uwtWriteG _ _ _ _ _ _ h
+
+theorem OpClosed.deleteOldG (guarded : Bool) (v : Bytes → Bool) (root : PPath) (path : Bytes) (st : St) (h : P st) :
+    P (deleteOldG guarded v root path st).1 := by
+  unfold Checkout.deleteOldG
+  split
+  · exact h
+  · simp only
+    split
+    · exact h
+    · exact h
+    · exact h
+    · exact hc.apply_unlink h
+
+theorem OpClosed.deletePhaseG (guarded : Bool) (v : Bytes → Bool) (root : PPath) : ∀ (ps : List Bytes) (st : St), P st →
+    P (deletePhaseG guarded v root ps st).1 := by
+  intro ps
+  induction ps with
+  | nil => intro st h; exact h
+  | cons p ps ih =>
+    intro st h
+    simp only [Checkout.deletePhaseG]
+    exact OpClosed.andThen (hc.deleteOldG _ _ _ _ _ h) ih
+
+end shapes
+
+section gitlink
+variable {root : PPath}
+
+/-- log extension for a gitlink entry: lexical prefixes of `root/comps`, or the write of the placeholder
+`root/comps/.git` -/
+def LogExtG (root : PPath) (comps : List Name) (st st' : St) : Prop :=
+  ∀ m ∈ st'.log, m ∈ st.log ∨ (∃ i, 1 ≤ i ∧ i ≤ comps.length ∧ m.target = root ++ comps.take i) ∨
+    m = .write (root ++ (comps ++ [dotGit]))
+
+theorem LogExtG.refl (comps : List Name) (st : St) : LogExtG root comps st st := fun _ hm => Or.inl hm
+
+theorem LogExtG.trans {comps : List Name} {a b c : St} (h1 : LogExtG root comps a b) (h2 : LogExtG root comps b c) :
+    LogExtG root comps a c := fun m hm => (h2 m hm).elim (fun h => h1 m h) Or.inr
+
+theorem LogExt.toG {comps : List Name} {a b : St} (h : LogExt root comps a b) : LogExtG root comps a b :=
+  fun m hm => (h m hm).elim Or.inl (fun h => Or.inr (Or.inl h))
+
+theorem LogExtG.andThen {comps : List Name} {a : St} {r : Step} {f : St → Step}
+    (h1 : LogExtG root comps a r.1) (h2 : r.2 = none → LogExtG root comps r.1 (f r.1).1) :
+    LogExtG root comps a (r.andThen f).1 := by
+  obtain ⟨st1, e⟩ := r
+  cases e with
+  | none => exact h1.trans (h2 rfl)
+  | some e => exact h1
+
+/-- `makedirs` only ever sets directories: a path that holds no symlink keeps holding none -/
+theorem mkdirsUp_nolink (lead : List Name) (Q : PPath) : ∀ (cnt i : Nat) (st : St),
+    (∀ t, st.fs Q ≠ some (.link t)) → ∀ t, (mkdirsUp root lead i cnt st).1.fs Q ≠ some (.link t) := by
+  intro cnt
+  induction cnt with
+  | zero => intro i st h; exact h
+  | succ cnt ih =>
+    intro i st h
+    simp only [mkdirsUp]
+    cases hr : sysMkdir st.fs root (lead.take (i + 1)) with
+    | error e => simpa [St.apply, Step.andThen] using h
+    | ok v =>
+      obtain ⟨p, h1, h2⟩ := sysMkdir_shape (fs' := v.1) (m := v.2) hr
+      simp only [St.apply, Step.andThen]
+      apply ih
+      intro t
+      simp only [h1]
+      by_cases hq : Q = p
+      · subst hq; rw [FS.set_same]; simp
+      · rw [FS.set_other _ _ hq]; exact h t
+
+theorem ensureParent_nolink (lead : List Name) (Q : PPath) (st : St) (h : ∀ t, st.fs Q ≠ some (.link t)) :
+    ∀ t, (ensureParent root lead st).1.fs Q ≠ some (.link t) := by
+  unfold ensureParent
+  split
+  · exact h
+  · exact mkdirsUp_nolink lead Q _ _ st h
+
+theorem dotGit_clean : CleanName dotGit := by unfold CleanName dotGit; decide
+
+/-- `ensure_submodule_placeholder` below a verified chain: creates missing directories of `root/comps` and writes
+`root/comps/.git` — provided no symlink sits at that very name -/
+theorem placeholder_log {comps : List Name} {j : Nat} (content : Bytes) (st : St) (hcl : Clean comps)
+    (hv : Verified st.fs root comps j)
+    (hC : ¬ (j + 1 = comps.length ∧ ∃ c m, st.fs (root ++ comps) = some (.file c m)))
+    (hgit : ∀ t, st.fs (root ++ (comps ++ [dotGit])) ≠ some (.link t)) :
+    LogExtG root comps st (placeholder root comps content st).1 := by
+  unfold placeholder
+  obtain ⟨hE1, hE2⟩ := ensureParent_ext st hcl hv
+  have hnl := ensureParent_nolink (root := root) comps (root ++ (comps ++ [dotGit])) st hgit
+  refine LogExtG.andThen hE1.toLog.toG ?_
+  intro hok
+  generalize ensureParent root comps st = r at *
+  obtain ⟨s, e⟩ := r
+  simp only at hok hE2 hnl ⊢
+  rcases hE2 hok with hall | ⟨hsame, hj1, hf⟩
+  · split
+    · exact LogExtG.refl _ _
+    · have hcl2 : Clean (comps ++ [dotGit]) := by
+        intro c hc
+        rcases List.mem_append.mp hc with h | h
+        · exact hcl c h
+        · simp at h; subst h; exact dotGit_clean
+      have hr := resolve_lex_follow s.fs root comps dotGit hcl2 hall hnl
+      intro m hm
+      cases hw : sysOpenWrite s.fs content root (comps ++ [dotGit]) with
+      | error er => rw [hw] at hm; exact Or.inl hm
+      | ok val =>
+        rw [hw] at hm
+        obtain ⟨ht, _, _⟩ := sysOpenWrite_spec hr hw
+        obtain ⟨p, md, _, hm2⟩ := sysOpenWrite_shape hw
+        simp only [St.apply, List.mem_append, List.mem_cons, List.not_mem_nil, or_false] at hm
+        rcases hm with hm | rfl
+        · exact Or.inl hm
+        · right; right
+          rw [hm2] at ht ⊢
+          simp only [Mut.target] at ht
+          rw [ht]
+  · exfalso
+    apply hC
+    refine ⟨hj1, ?_⟩
+    obtain ⟨c, m, h⟩ := hf
+    exact ⟨c, m, h⟩
+
+end gitlink
+
+section gitlink2
+variable {root : PPath}
+
+theorem Verified.extend_absent {fs : FS} {lead : List Name} {last : Name} {j : Nat}
+    (hd : DirChain fs root lead j) (hj : j < lead.length) (hn : fs (root ++ lead.take (j + 1)) = none) :
+    Verified fs root (lead ++ [last]) j :=
+  ⟨by simp; omega, hd.append [last] (by omega), Or.inr (Or.inl (by
+    rw [List.take_append_of_le_length (by omega)]; exact hn))⟩
+
+/-- **gitlink step with the LSTAT directory test and a fresh cache**: from EVERY state in which no symlink sits at
+the placeholder's own name, every logged call acted on a lexical prefix of the validated path or wrote
+`root/path/.git`. -/
+theorem uwtGitlink_log (content : Bytes) (st : St) (lead : List Name) (last : Name) (hcl : Clean (lead ++ [last]))
+    {safe' : List Name} (hver : verifyLeadingDirs st.fs root (lead ++ [last]) [] = .ok safe')
+    (hgit : ∀ t, st.fs (root ++ (lead ++ [last] ++ [dotGit])) ≠ some (.link t)) :
+    LogExtG root (lead ++ [last]) st (uwtGitlinkG false root (lead ++ [last]) content st).1 := by
+  have hcll : Clean lead := fun c hc => hcl c (List.mem_append_left _ hc)
+  have hdl : (lead ++ [last]).dropLast = lead := by simp
+  have hV : ∃ j, Verified st.fs root lead j := by
+    by_cases hl0 : lead = []
+    · subst hl0
+      exact ⟨0, Nat.le_refl _, fun i h1 h2 => by omega, Or.inl rfl⟩
+    · have := verifyLeadingDirs_spec (root := root) (comps := lead ++ [last]) (by rw [hdl]; exact hcll)
+        (by rw [hdl]; exact hl0) (fun i h1 h2 => by simp at h2; omega) hver
+      rw [hdl] at this
+      exact this.1
+  obtain ⟨j, hj, hd, hcase⟩ := hV
+  unfold uwtGitlinkG
+  cases hl : lstat st.fs root (lead ++ [last]) with
+  | error err =>
+    cases err <;> first | exact LogExtG.refl _ _ | skip
+    -- ENOENT: nothing at the path (or a leading component is missing)
+    simp only
+    have htk : (lead ++ [last]).take (lead.length + 1) = lead ++ [last] := by
+      rw [List.take_of_length_le (by simp)]
+    by_cases hje : j = lead.length
+    · subst hje
+      have hnone : st.fs (root ++ (lead ++ [last])) = none := by
+        rw [lstat_lex st.fs hcl hd] at hl
+        cases hP : st.fs (root ++ (lead ++ [last])) with
+        | none => rfl
+        | some n => rw [hP] at hl; cases hl
+      refine placeholder_log content st hcl (j := lead.length)
+        ⟨by simp, ?_, Or.inr (Or.inl (by rw [htk]; exact hnone))⟩ ?_ hgit
+      · exact hd.append [last] (Nat.le_refl _)
+      · rintro ⟨_, c, m, h⟩; rw [hnone] at h; cases h
+    have hjl : j < lead.length := by omega
+    rcases hcase with hje' | hn | ⟨hj1, ct, md, hf⟩
+    · exact absurd hje' hje
+    · exact placeholder_log content st hcl (Verified.extend_absent hd hjl hn)
+        (by rintro ⟨h1, _⟩; simp at h1; omega) hgit
+    · exfalso
+      have hne : lead ≠ [] := by intro h; subst h; simp at hj1
+      obtain ⟨l2, mid, rfl⟩ : ∃ l2 mid, lead = l2 ++ [mid] :=
+        ⟨lead.dropLast, lead.getLast hne, (List.dropLast_concat_getLast hne).symm⟩
+      have hjl : j = l2.length := by simp at hj1; omega
+      have hd2 : DirChain st.fs root l2 l2.length := by
+        intro i h1 h2
+        have := hd i h1 (by omega)
+        rwa [List.take_append_of_le_length h2] at this
+      have e : l2 ++ [mid] ++ [last] = l2 ++ [mid, last] := by simp
+      have hr := resolve_parent_file st.fs root l2 mid last false (by rw [← e]; exact hcl) hd2 hf
+      simp only [lstat] at hl
+      rw [e, hr] at hl
+      cases hl
+  | ok cur =>
+    simp only [Bool.false_eq_true, if_false]
+    have hlt : lstatTracked st.fs root (lead ++ [last]) = .ok cur := by
+      simp only [lstatTracked, hver, hl]
+    obtain ⟨hdall, hP⟩ := lstatTracked_lexical (root := root) hcl hlt
+    split
+    · -- a real directory is there
+      rename_i hdir
+      have hcd : cur = .dir := by simpa using hdir
+      subst hcd
+      refine placeholder_log content st hcl (j := (lead ++ [last]).length) ⟨Nat.le_refl _, ?_, Or.inl rfl⟩
+        (by rintro ⟨h1, _⟩; omega) hgit
+      intro i h1 h2
+      by_cases hi : i ≤ lead.length
+      · rw [List.take_append_of_le_length hi]; exact hdall i h1 hi
+      · have : i = (lead ++ [last]).length := by simp at h2 ⊢; omega
+        rw [this, List.take_length]; exact hP
+    · -- anything else (a symlink included) is removed first
+      have hr := resolve_lex_nofollow st.fs root lead last hcl hdall
+      have h1 : LogExtG root (lead ++ [last]) st (st.apply (sysUnlink st.fs root (lead ++ [last]))).1 := by
+        cases hu : sysUnlink st.fs root (lead ++ [last]) with
+        | error er => exact LogExtG.refl _ _
+        | ok val =>
+          obtain ⟨ht, _, _⟩ := sysUnlink_spec hr hu
+          intro m hm
+          simp only [St.apply, List.mem_append, List.mem_cons, List.not_mem_nil, or_false] at hm
+          rcases hm with hm | rfl
+          · exact Or.inl hm
+          · exact Or.inr (Or.inl ⟨(lead ++ [last]).length, by simp, Nat.le_refl _, by rw [List.take_length]; exact ht⟩)
+      refine LogExtG.andThen h1 ?_
+      intro hok
+      obtain ⟨fs', m, hr1, hst1⟩ := apply_ok hok
+      obtain ⟨_, _, rfl⟩ := sysUnlink_spec hr hr1
+      rw [hst1]
+      refine placeholder_log content _ hcl (j := lead.length)
+        ⟨by simp, (chain_after_remove hdall).append [last] (Nat.le_refl _), Or.inr (Or.inl (by
+          rw [List.take_of_length_le (by simp)]; exact FS.set_same _ _ _))⟩ ?_ ?_
+      · rintro ⟨_, c, md, h⟩
+        simp [FS.set_same] at h
+      · intro t
+        simp only
+        rw [FS.set_other]
+        · exact hgit t
+        · intro he
+          have := congrArg List.length he
+          simp at this
+
+end gitlink2
+
+section inv
+variable {root : PPath}
+
+/-- the components a validator lets through: clean and not `.git` in any ASCII case -/
+def SafeComps (comps : List Name) : Prop :=
+  comps ≠ [] ∧ Clean comps ∧ ∀ c ∈ comps, lower c ≠ [46, 103, 105, 116]
+
+/-- where a logged call of `update_working_tree` may have acted: on a lexical prefix of a validated path, or — the
+gitlink placeholder — it is the write of `<validated path>/.git` -/
+def LexMut (root : PPath) (m : Mut) : Prop :=
+  ∃ comps : List Name, SafeComps comps ∧
+    ((∃ i, 1 ≤ i ∧ i ≤ comps.length ∧ m.target = root ++ comps.take i) ∨ m = .write (root ++ (comps ++ [dotGit])))
+
+/-- no symlink NAMED `.git` anywhere -/
+def NoDotGitLink (fs : FS) : Prop := ∀ p t, fs (p ++ [dotGit]) ≠ some (.link t)
+
+/-- every symlink of the current file system was already there at the start or was created by a logged `symlink` -/
+def LinkFrame (fs0 : FS) (st : St) : Prop :=
+  ∀ q t, st.fs q = some (.link t) → (∃ t', fs0 q = some (.link t')) ∨ ∃ t', Mut.symlink q t' ∈ st.log
+
+theorem linkFrame_closed (fs0 : FS) : OpClosed (LinkFrame fs0) where
+  set := by
+    intro st p n m hn h q t hq
+    simp only at hq
+    by_cases hqp : q = p
+    · subst hqp
+      rw [FS.set_same] at hq
+      rcases hn t hq with rfl | h'
+      · exact Or.inr ⟨t, by simp⟩
+      · rcases h q t h' with a | ⟨t', b⟩
+        · exact Or.inl a
+        · exact Or.inr ⟨t', by simp [b]⟩
+    · rw [FS.set_other _ _ hqp] at hq
+      rcases h q t hq with a | ⟨t', b⟩
+      · exact Or.inl a
+      · exact Or.inr ⟨t', by simp [b]⟩
+  safe := fun st s h => h
+
+theorem lower_dotGit : lower dotGit = [46, 103, 105, 116] := by decide
+
+/-- the invariant gives the local hypothesis of the gitlink step: no symlink sits at any `…/.git` -/
+theorem nolink_at_dotgit {fs0 : FS} {st : St} (h0 : NoDotGitLink fs0) (hlog : ∀ m ∈ st.log, LexMut root m)
+    (hfr : LinkFrame fs0 st) : NoDotGitLink st.fs := by
+  intro p t hq
+  rcases hfr _ t hq with ⟨t', h⟩ | ⟨t', hm⟩
+  · exact h0 p t' h
+  · obtain ⟨comps, ⟨_, _, hs⟩, hcase⟩ := hlog _ hm
+    rcases hcase with ⟨i, hi1, hi2, ht⟩ | hw
+    · simp only [Mut.target] at ht
+      -- the last component of `root ++ comps.take i` is a component of `comps`, so it is not `.git`
+      have hne : comps.take i ≠ [] := by
+        intro he
+        have := congrArg List.length he
+        simp only [List.length_take, List.length_nil] at this
+        omega
+      have hrev := congrArg List.reverse ht
+      simp only [List.reverse_append, List.reverse_cons, List.reverse_nil, List.nil_append, List.singleton_append] at hrev
+      cases hr : (comps.take i).reverse with
+      | nil => exact hne (by simpa using hr)
+      | cons x xs =>
+        rw [hr] at hrev
+        simp only [List.cons_append, List.cons.injEq] at hrev
+        have hx : x ∈ comps := by
+          have : x ∈ (comps.take i).reverse := by rw [hr]; exact List.mem_cons_self
+          exact List.mem_of_mem_take (List.mem_reverse.mp this)
+        exact hs x hx (by rw [← hrev.1]; exact lower_dotGit)
+    · cases hw
+
+end inv
+
 end Dulwich.Checkout
